@@ -75,8 +75,9 @@ def main(tier, replay=None):
 
     nexec = 12 if quick else 150
     nops = (lambda: rng.choice([60, 160])) if quick else (lambda: rng.choice([200, 1000]))
+    ALIEN = ["alien_" + x for x in ("c_str", "c_int", "c_float", "call", "start", "stop", "lock", "sclose", "deref", "current", "currentelem", "sort", "push", "pop", "concat", "join")]
     for kind in ("Array", "List", "Tuple"):
-        bad = list(SEQ_BAD)
+        bad = list(SEQ_BAD) + ALIEN
         if kind != "Tuple":
             bad += SEQ_BAD_OWNING
         if kind != "Tuple":
